@@ -13,7 +13,7 @@ import (
 // answers rows whose type strings, replication maps and names are drawn from a menu of
 // well-formed and garbage values, so that the schema type-string parsers see both.
 
-var schemaSelectRe = regexp.MustCompile(`(?s)SELECT\s+(.*?)\s+FROM\s+(system_schema\.\w+)`)
+var schemaSelectRe = regexp.MustCompile(`(?s)SELECT\s+(.*?)\s+FROM\s+(system_schema\.\w+|system\.schema_\w+)`)
 
 func tText() cqlspec.ColType { return cqlspec.ColType{ID: cqlspec.TVarchar} }
 
@@ -26,7 +26,7 @@ var schemaColTypes = map[string]cqlspec.ColType{
 	"extensions":  {ID: cqlspec.TMap, Elems: []cqlspec.ColType{tText(), {ID: cqlspec.TBlob}}},
 	"field_names": {ID: cqlspec.TList, Elems: []cqlspec.ColType{tText()}}, "field_types": {ID: cqlspec.TList, Elems: []cqlspec.ColType{tText()}},
 	"argument_types": {ID: cqlspec.TList, Elems: []cqlspec.ColType{tText()}}, "argument_names": {ID: cqlspec.TList, Elems: []cqlspec.ColType{tText()}},
-	"position": {ID: cqlspec.TInt}, "default_time_to_live": {ID: cqlspec.TInt}, "gc_grace_seconds": {ID: cqlspec.TInt},
+	"component_index": {ID: cqlspec.TInt}, "position": {ID: cqlspec.TInt}, "default_time_to_live": {ID: cqlspec.TInt}, "gc_grace_seconds": {ID: cqlspec.TInt},
 	"max_index_interval": {ID: cqlspec.TInt}, "memtable_flush_period_in_ms": {ID: cqlspec.TInt}, "min_index_interval": {ID: cqlspec.TInt},
 	"bloom_filter_fp_chance": {ID: cqlspec.TDouble}, "crc_check_chance": {ID: cqlspec.TDouble}, "dclocal_read_repair_chance": {ID: cqlspec.TDouble},
 	"read_repair_chance": {ID: cqlspec.TDouble}, "base_table_id": {ID: cqlspec.TUUID}, "id": {ID: cqlspec.TUUID},
@@ -48,7 +48,7 @@ func schemaColumns(stmt string) (table string, cols []cqlspec.ColSpec, ok bool) 
 		if !known {
 			t = tText()
 		}
-		cols = append(cols, cqlspec.ColSpec{Keyspace: "system_schema", Table: strings.TrimPrefix(table, "system_schema."), Name: name, Type: t})
+		cols = append(cols, cqlspec.ColSpec{Keyspace: "system_schema", Table: strings.TrimPrefix(strings.TrimPrefix(table, "system_schema."), "system."), Name: name, Type: t})
 	}
 	return table, cols, true
 }
@@ -61,12 +61,46 @@ var typeStrings = []string{"int", "text", "frozen<map<text, list<int>>>", "list<
 	"org.apache.cassandra.db.marshal.MapType(", "org.apache.cassandra.db.marshal.ReversedType(org.apache.cassandra.db.marshal.", "\x00\xff", "set<map<int,>>",
 	"'quoted'", "map<text, int", "list<int>>", "org.apache.cassandra.db.marshal.CompositeType()", "org.apache.cassandra.db.marshal.ListType(,)"}
 
+// validators and comparators of the tables before Cassandra 3.0
+var marshalStrings = []string{
+	"org.apache.cassandra.db.marshal.UTF8Type", "org.apache.cassandra.db.marshal.Int32Type",
+	"org.apache.cassandra.db.marshal.ReversedType(org.apache.cassandra.db.marshal.TimeUUIDType)",
+	"org.apache.cassandra.db.marshal.CompositeType(org.apache.cassandra.db.marshal.UTF8Type,org.apache.cassandra.db.marshal.Int32Type)",
+	"org.apache.cassandra.db.marshal.CompositeType(org.apache.cassandra.db.marshal.Int32Type,org.apache.cassandra.db.marshal.UTF8Type)",
+	"org.apache.cassandra.db.marshal.CompositeType(org.apache.cassandra.db.marshal.UTF8Type,org.apache.cassandra.db.marshal.ColumnToCollectionType(6162:org.apache.cassandra.db.marshal.ListType(org.apache.cassandra.db.marshal.Int32Type)))",
+	"org.apache.cassandra.db.marshal.MapType(org.apache.cassandra.db.marshal.UTF8Type,org.apache.cassandra.db.marshal.Int32Type)",
+	"org.apache.cassandra.db.marshal.UserType(ks,6d79756474,6669656c64:org.apache.cassandra.db.marshal.Int32Type)",
+	"org.apache.cassandra.db.marshal.TupleType(org.apache.cassandra.db.marshal.Int32Type,org.apache.cassandra.db.marshal.UTF8Type)",
+	"org.apache.cassandra.db.marshal.FrozenType(org.apache.cassandra.db.marshal.ListType(org.apache.cassandra.db.marshal.Int32Type))",
+	// garbage
+	"", "org.apache.cassandra.db.marshal.CompositeType(org.apache.cassandra.db.marshal.ColumnToCollectionType(6162:org.apache.cassandra.db.marshal.ListType(org.apache.cassandra.db.marshal.Int32Type)))",
+	"org.apache.cassandra.db.marshal.CompositeType()", "org.apache.cassandra.db.marshal.CompositeType(", "org.apache.cassandra.db.marshal.ReversedType()",
+	"org.apache.cassandra.db.marshal.ColumnToCollectionType()", "org.apache.cassandra.db.marshal.ColumnToCollectionType(zz:org.apache.cassandra.db.marshal.ListType)",
+	"org.apache.cassandra.db.marshal.CompositeType(org.apache.cassandra.db.marshal.ReversedType())", "(", ")", ",", "a(b(c(d(e(f(g(h))))))))", "org.apache.cassandra.db.marshal.MapType(org.apache.cassandra.db.marshal.UTF8Type)",
+	"org.apache.cassandra.db.marshal.UserType()", "org.apache.cassandra.db.marshal.UserType(ks)", "org.apache.cassandra.db.marshal.TupleType()", "org.apache.cassandra.db.marshal.ListType()",
+	"org.apache.cassandra.db.marshal.CompositeType(org.apache.cassandra.db.marshal.UTF8Type,org.apache.cassandra.db.marshal.UTF8Type,org.apache.cassandra.db.marshal.UTF8Type)", "\x00("}
+
+var jsonStrings = []string{`[]`, `["k"]`, `["a","b"]`, `["a","b","c","d"]`, `{}`, `{"replication_factor":"1"}`, `{"dc1":"3","dc2":"x"}`, `null`, ``, `[`, `{"a":1}`, `[1,2]`, `"s"`, `[null]`, `{"a":{"b":[]}}`}
+
 func schemaCell(tp *kernel.Tape, proto int, spec cqlspec.ColSpec, row int) cqlspec.Cell {
 	if tp.Chance(1, 12) {
 		return cqlspec.Cell{Null: true}
 	}
+	legacyTable := strings.HasPrefix(spec.Table, "schema_")
 	str := func() string {
 		switch {
+		case legacyTable && (strings.Contains(spec.Name, "validator") || spec.Name == "comparator"):
+			return marshalStrings[tp.Next(len(marshalStrings))]
+		case legacyTable && (strings.HasSuffix(spec.Name, "_aliases") || strings.HasSuffix(spec.Name, "_options")):
+			return jsonStrings[tp.Next(len(jsonStrings))]
+		case legacyTable && spec.Name == "type":
+			return []string{"partition_key", "clustering_key", "regular", "compact_value", "static", "bogus", ""}[tp.Next(7)]
+		case legacyTable && spec.Name == "strategy_class":
+			return []string{"org.apache.cassandra.locator.SimpleStrategy", "org.apache.cassandra.locator.NetworkTopologyStrategy", "SimpleStrategy", "", "Bogus"}[tp.Next(5)]
+		case legacyTable && strings.Contains(spec.Name, "type") && tp.Chance(1, 2):
+			return marshalStrings[tp.Next(len(marshalStrings))]
+		case spec.Name == "columnfamily_name":
+			return []string{"t1", "t2", ""}[tp.Next(3)]
 		case strings.Contains(spec.Name, "type") || spec.Name == "initcond":
 			return typeStrings[tp.Next(len(typeStrings))]
 		case spec.Name == "kind":
@@ -82,7 +116,7 @@ func schemaCell(tp *kernel.Tape, proto int, spec cqlspec.ColSpec, row int) cqlsp
 	case cqlspec.TBoolean:
 		return cqlspec.Cell{Bytes: cqlspec.EncBool(tp.Next(2) == 1)}
 	case cqlspec.TInt:
-		return cqlspec.Cell{Bytes: cqlspec.EncInt([]int32{0, 1, -1, 5, 1 << 30}[tp.Next(5)])}
+		return cqlspec.Cell{Bytes: cqlspec.EncInt([]int32{0, 1, -1, 5, 1 << 30, 2, -1 << 31}[tp.Next(7)])}
 	case cqlspec.TDouble:
 		return cqlspec.Cell{Bytes: cqlspec.EncDouble(0.1)}
 	case cqlspec.TUUID:
